@@ -41,8 +41,8 @@ var props = map[string]propDef{
 	"C30": {"exploration", 1400, 30000,
 		"Each case: a history of 1..6 generated programs on one Runner (assignments, options, traps, functions, aliases, cd/pushd, exit, failing and fatal commands, exec redirections, quiet background jobs left running), each ending normally, by exit, by a fatal handler error or by cancellation at a seeded step, then Reset and P; compared with P on a Runner made by New with the same options (stdout, stderr, returned error, Exited, Vars, Funcs, Dir, Params). One quarter of the cases instead compare Run(file) with one Run call per top-level statement stopping at Exited (programs without EXIT trap). Non-trivial: the history run finished; distinct = distinct (history+P, tape, faults) hashes.",
 		[]string{"external state (simulated files, consumed stdin) is kept out of the comparison by construction: histories never read the shared stdin nor write files P reads"}},
-	"C31": {"exploration", 1500, 30000,
-		"Each case: one of 62 non-terminating or forever-blocking programs (infinite loops in every syntactic position, blocked read/read -a/mapfile/select/cat on a silent stdin, wait and wait gN on sleeping/looping/blocked jobs, process substitutions never opened / opened but never read / read slowly, pipelines blocked on either side with tiny pipe capacity, here-document writers blocked on a full pipe, commands that ignore cancellation for up to 2 s) with a seeded prefix, crossed with the cancellation step: steps 0..23 are enumerated for every program, later steps drawn; the cancellation fires at that controller step or at the first idle instant before it. Oracle after the cancel event: Run returns within 2000 scheduling steps and 3 s of simulated time, never ends in a state where nothing is runnable and no timer is pending, and returns a non-nil error. Non-trivial: the cancellation fired; distinct = distinct (program, tape, cancel step) hashes.",
+	"C31": {"exploration", 2000, 40000,
+		"Each case: one of 82 non-terminating or forever-blocking programs (infinite loops in every syntactic position, blocked read/read -a/mapfile/select/cat on a silent stdin, wait and wait gN on sleeping/looping/blocked jobs, process substitutions never opened / opened but never read / read slowly, pipelines blocked on either side with tiny pipe capacity, here-document writers blocked on a full pipe, commands that ignore cancellation for up to 2 s) with a seeded prefix, crossed with the cancellation step: steps 0..23 are enumerated for every program, later steps drawn; the cancellation fires at that controller step or at the first idle instant before it. Oracle after the cancel event: Run returns within 2000 scheduling steps and 3 s of simulated time, never ends in a state where nothing is runnable and no timer is pending, and returns a non-nil error. Non-trivial: the cancellation fired; distinct = distinct (program, tape, cancel step) hashes.",
 		[]string{"simulated commands honour the context at once except 'stubborn d' (d <= 2 s), which stands for a child that ignores SIGINT until the kill timeout", "the real DefaultExecHandler signalling path is outside the simulation"}},
 	"C32": {"exploration", 2000, 50000,
 		"Each case is one of: (race) a generated parent state and statement lists S and T touching the same names, S in a concurrent construct (background job, background subshell, >( ), both sides of | and |&, command substitution inside a job, <( ) inside a job, two jobs, a function run in a job) and T in the parent, under a seeded schedule with I/O faults; (subshell-api) Runner.Subshell() copy and parent run generated programs concurrently; (wait) 1..5 jobs with distinct exit codes and simulated durations, then wait gJ; echo $? in seeded order. Oracle: the Go race detector (scheduler hand-offs hidden from it, so serialisation adds no happens-before edges) reports nothing during the run, no panic, and the wait statuses printed are the jobs' codes, bare wait gives 0, an unknown job id gives 1. Non-trivial: at least one context switch between live goroutines; distinct = distinct (program, tape, faults) hashes.",
@@ -399,7 +399,59 @@ func doCheck(prop string, def propDef, tier string) int {
 		return 2
 	}
 	verdicts = append(verdicts, crashes...)
+	if prop == "C31" {
+		// the one part of C31 that is NOT simulated: real child processes
+		// through DefaultExecHandler (labelled so in the evidence)
+		pv, summary, err := runRealProbe()
+		if err != nil {
+			fmt.Println("check trouble: real-process probe:", err)
+			return 2
+		}
+		verdicts = append(verdicts, pv...)
+		probeSummary = summary
+		n += len(pv)
+	}
 	return report(prop, def, tier, root, start, verdicts, n)
+}
+
+var probeSummary any
+
+// runRealProbe runs TestRealProbe of the worker binary in its own process
+// and turns its results into verdicts.
+func runRealProbe() ([]*worldb.Verdict, any, error) {
+	out := filepath.Join(scratch, "probe.json")
+	cmd := exec.Command(binTest, "-test.run", "^TestRealProbe$", "-test.timeout", "0")
+	cmd.Env = append(os.Environ(), "VERIF_B_PROBE_OUT="+out, "GORACE=halt_on_error=0 log_path="+filepath.Join(scratch, "probe.race"))
+	if b, err := cmd.CombinedOutput(); err != nil {
+		// the race detector may make the test binary exit non-zero; only a
+		// missing result file is trouble
+		if _, serr := os.Stat(out); serr != nil {
+			return nil, nil, fmt.Errorf("%v: %s", err, kit.Clip(string(b), 1500))
+		}
+	}
+	b, err := os.ReadFile(out)
+	if err != nil {
+		return nil, nil, err
+	}
+	var rs []worldb.ProbeResult
+	if err := json.Unmarshal(b, &rs); err != nil {
+		return nil, nil, err
+	}
+	var vs []*worldb.Verdict
+	var sum []string
+	for i, r := range rs {
+		v := &worldb.Verdict{Idx: 1000000 + i, OK: r.OK, Kind: "real-probe:" + r.Name, Strategy: "real-processes(not simulated)", Runs: r.Attempts, NonTrivial: true,
+			Hash: kit.Hash64([]byte("real-probe"), []byte(r.Name)), Digest: "real-probe:" + r.Name, Cancelled: true, FaultFree: false}
+		if r.Class == "harness" {
+			v.Skipped = "harness: " + r.Detail
+		} else if !r.OK {
+			v.Class, v.Key, v.Detail = r.Class, "real:"+r.Name, r.Detail
+			v.Case = &worldb.Case{Property: "C31", Idx: v.Idx, Kind: "real-probe:" + r.Name, Prog: []string{r.Program}, CancelStep: -1, Class: v.Class, Key: v.Key, Detail: v.Detail}
+		}
+		vs = append(vs, v)
+		sum = append(sum, fmt.Sprintf("%s: ok=%v %.2fs after cancel, err=%q, attempts=%d", r.Name, r.OK, r.Seconds, r.Err, r.Attempts))
+	}
+	return vs, sum, nil
 }
 
 type tally struct {
@@ -545,6 +597,7 @@ func report(prop string, def propDef, tier string, root uint64, start time.Time,
 		"case_kinds":                t.kinds,
 		"known_findings_seen":       knownSeen,
 		"determinism_gate":          "sampled cases re-run in 3 processes at GOMAXPROCS 1/4/16; event logs byte-identical",
+		"real_process_probe(NOT simulated; C31 only)": probeSummary,
 		"components": map[string]string{
 			"syntax, expand, pattern, interp (runner, builtins, vars, traps, wait, read, redirections)": "real, built with -race and -tags verif",
 			"goroutine scheduling":                 "simulated: controller inside a testing/synctest bubble picks every step from the seed",
@@ -584,6 +637,22 @@ func doReplay(prop, path string) int {
 	var c worldb.Case
 	if err := json.Unmarshal(b, &c); err != nil {
 		fmt.Println(err)
+		return 2
+	}
+	if strings.HasPrefix(c.Kind, "real-probe:") {
+		pv, _, err := runRealProbe()
+		if err != nil {
+			fmt.Println("replay trouble:", err)
+			return 2
+		}
+		for _, v := range pv {
+			if v.Kind == c.Kind && !v.OK && v.Skipped == "" {
+				fmt.Printf("replayed: class=%s key=%s\n  detail=%s\n", v.Class, v.Key, v.Detail)
+				fmt.Printf("VIOLATION property=%s replay=%s\n", prop, path)
+				return 1
+			}
+		}
+		fmt.Println("replay diverged: the real-process probe case passed this time")
 		return 2
 	}
 	vs := evalCases(prop, []*worldb.Case{&c})
